@@ -40,7 +40,7 @@ MUTANTS = {
   ('m13_keyword_values_not_named', _ANF,
    "      node.value = self._ensure_node_in_anf(parent, field, node.value)\n      return node", "      return node"),
   ('m14_starred_not_unwrapped', _ANF,
-   "    if isinstance(node, (ast.Starred, ast.withitem, ast.slice)):", "    if isinstance(node, (ast.withitem, ast.slice)):"),
+   "    if isinstance(node, (ast.Starred, ast.Slice)):", "    if isinstance(node, (ast.Slice,)):"),
   ('m15_pending_dropped_in_raise', _ANF,
    "  def visit_Raise(self, node):\n    return self._visit_strict_statement(node)",
    "  def visit_Raise(self, node):\n    r = self._visit_strict_statement(node)\n    return r[-1:] if len(r) > 3 else r"),
@@ -49,5 +49,14 @@ MUTANTS = {
   ('m17_hoists_reversed_within_statement', _ANF,
    "    ans = self._pending_statements\n    self._pending_statements = []\n    return ans",
    "    ans = self._pending_statements\n    self._pending_statements = []\n    return ans if len(ans) != 2 else ans[::-1]"),
+  # positional None placeholders of list fields (Dict.keys of a ** entry) dropped while naming the fields of a node
+  ('m18_none_entries_of_list_fields_dropped', _ANF,
+   "      return [self._ensure_node_in_anf(parent, field, n) for n in node]",
+   "      return [self._ensure_node_in_anf(parent, field, n) for n in node if n is not None]"),
+  # the ** entries of a dict display are taken out of their position and appended after the key: value pairs
+  ('m19_dict_unpack_entries_moved_last', _ANF,
+   "  def visit_Dict(self, node):\n    return self._visit_strict_expression(node)",
+   "  def visit_Dict(self, node):\n    node = self._visit_strict_expression(node)\n    kv = sorted(zip(node.keys, node.values), key=lambda p: p[0] is None)\n"
+   "    node.keys = [k for k, _ in kv]\n    node.values = [v for _, v in kv]\n    return node"),
  ],
 }
